@@ -376,6 +376,39 @@ def rule_namespace(run):
                          where=fi.where(calls[0]), robust=True)
 
 
+def rule_justarg(run):
+    run.rule('JUSTARG', 'within one function, the generators of node / column / layer names are all called with the same justification: the file '
+             'stores names stripped and the reader right-justifies them, so a function that names some of its new objects left- and '
+             'others right-justified creates names that collide after a write / read cycle', floor=3)
+    prog = run.prog
+    cls = prog.cls('mulgrids', 'mulgrid')
+    gens = dict((m, fi) for m, fi in cls.methods.items() if 'justfn' in fi.params and (m.startswith('new_') or m.endswith('_from_number')))
+    n = 0
+    for fi in sorted(prog.all_functions(['mulgrids']), key=lambda f: f.qual):
+        if fi.name in gens: continue
+        calls = [c for c in walk_no_nested(fi.node) if isinstance(c, ast.Call) and isinstance(c.func, ast.Attribute) and c.func.attr in gens]
+        if len(calls) < 2: continue
+        def just_of(c):
+            g = gens[c.func.attr]
+            pos = g.params.index('justfn') - 1          # (self is not passed)
+            for k in c.keywords:
+                if k.arg == 'justfn': return norm(k.value)
+            return norm(c.args[pos]) if len(c.args) > pos else None
+        js = [(just_of(c), c) for c in calls]
+        given = set(j for j, c in js if j is not None)
+        n += 1
+        key = '%s :: %d name-generator calls agree on the justification' % (fi.short, len(calls))
+        missing = [c for j, c in js if j is None]
+        if given and missing:
+            run.violated(key, '`%s` is called without the justification function that the other name generators in this function get (`%s`): it '
+                         'falls back to right justification, so in a left-justified geometry its names ("  v") collide with the others ("v  ") once '
+                         'the geometry has been written and read back' % (norm(missing[0])[:60], sorted(given)[0]), where=fi.where(missing[0]), robust=True)
+        elif len(given) > 1:
+            run.unknown(key, 'different justification arguments: %s' % sorted(given), where=fi.where(calls[0]))
+        else: run.ok(key, sorted(given) or ['default'], where=fi.where(calls[0]))
+    if n == 0: run.unknown('mulgrids :: name generator call sites', 'no function with two or more calls found', where='mulgrids.py')
+
+
 def rule_uniqlast(run):
     run.rule('UNIQLAST', 'where a function makes the naming alphabet repeat-free with uniqstring() and also transforms it (case conversion), '
              'uniqstring() is applied last: a transformation that is not one-to-one ("aA" -> "AA") applied afterwards puts the repeats back '
@@ -413,6 +446,7 @@ def rule_memo(run):
 def check(run):
     run.guarded('UNIQ', rule_uniq)
     run.guarded('UNIQLAST', rule_uniqlast)
+    run.guarded('JUSTARG', rule_justarg)
     run.guarded('NAMESPACE', rule_namespace)
     run.guarded('MEMO', rule_memo)
     run.guarded('SLICE', rule_slice)
